@@ -378,6 +378,23 @@ static void enumerate(void) {
                   if (!rd) mc_fail("open.failed", "code %d %s", err.code, err.message); else { char fdc[640]; snprintf(fdc, sizeof fdc, "c02x:%s;io=%d", fd, io); explore_states(rd, 0, 0, &cols[0], fdc); carquet_reader_close(rd); } }
               unlink(g_path); free(x); ref_buf_free(&img); ref_arena_free(&RA);
           } }
+        /* chunks of many short pages (2 or 3 rows each, 9..20 pages): one call crosses every number of page boundaries up to the whole chunk */
+        mc_stage("c02.many-short-pages.explicit-state");
+        { static const int CDM[] = { CODEC_NONE, CODEC_SNAPPY, CODEC_ZSTD }; static const int TM[] = { PT_BYTE_ARRAY, PT_INT32, PT_FLBA };
+          for (int t = 0; t < 3; t++) for (int opt = 0; opt < 2; opt++) for (int cd = 0; cd < 3; cd++) for (int enc = 0; enc < 2; enc++) for (int up = 2; up <= 3; up++) for (int N = 27; N <= 40; N += 13) {
+              if (!mc_next()) continue;
+              memset(&f, 0, sizeof f); f.ncols = 1; f.col[0].ptype = TM[t]; f.col[0].tlen = TM[t] == PT_FLBA ? 3 : 0; f.col[0].opt = opt; f.N = N; f.mask[0] = opt ? 0x5a5a5a96c3ull & ((1ull << N) - 1) : 0; f.uniform_page[0] = up;
+              f.enc[0] = enc ? ENC_RLE_DICT : ENC_PLAIN; f.codec = CDM[cd]; f.dict_offset_present = true; f.crc = true; f.level_form = REF_H_MIXED; f.index_form = REF_H_MIXED; f.pattern = 0;
+              const char* fd = rf_desc(&f); mc_desc("c02m:%s", fd); mc_case_key(mc_mix(0xc02e, ((uint64_t)t << 40) | ((uint64_t)opt << 39) | ((uint64_t)N << 32) | ((uint64_t)cd << 16) | ((uint64_t)enc << 8) | (uint64_t)up)); mc_nontrivial(); mc_budget_ms(30000);
+              ref_buf img; ref_buf_init(&img); static ref_coldata cols[RF_MAXC]; int np = 0; if (rf_build(&RA, &f, &img, NULL, 0, &np, cols)) mc_harness_error("reference writer failed (many short pages)");
+              uint8_t* x = mc_exact(img.p, img.n); put_file(x, img.n);
+              for (int io = 0; io < 3; io++) { carquet_error_t err = CARQUET_ERROR_INIT; carquet_reader_t* rd = open_mode(io, x, img.n, 1, &err);
+                  if (!rd) mc_fail("open.failed", "code %d %s", err.code, err.message);
+                  else { char fdc[640]; snprintf(fdc, sizeof fdc, "c02m:%s;io=%d", fd, io); explore_states(rd, 0, 0, &cols[0], fdc);
+                         int proj[1] = { 0 }; static const int64_t BSM[] = { 1, 5, 19, 64 }; for (int b = 0; b < 4; b++) check_batches(rd, &f, cols, BSM[b], proj, 1, 0, fdc, NULL);
+                         carquet_reader_close(rd); } }
+              unlink(g_path); free(x); ref_buf_free(&img); ref_arena_free(&RA);
+          } }
         /* pages with 2^15 / 2^16 and more values followed by further pages, consumed through a fixed menu of histories (one call for the
          * whole chunk, calls ending at / one short of / one past the page boundary, blocks of 4096 and 30000, skips over the boundary) */
         mc_stage("c02.long-pages.history-menu");
